@@ -207,6 +207,19 @@ CHECKS = {
              "correspondence on SystemInfo, Machine, constraints, statuses, IOBUF, counters; ground-truth oracle.",
         ref="4 C14", technique="Coq proof (encode/decode round trips, exactness of the derived machine model) + py2v/ast translation + vm_compute correspondence",
         note=TB + " SC&MP reply layouts as documented; read chunking/retransmission are C07/C06; a 256-wide machine cannot be encoded in the 8-bit dimension fields and is excluded."),
+    "C09": dict(
+        text="Full under stated guards, plus two known findings. Packet-field expressions, nn-id cycle, block count and loop "
+             "tests are translated from source on every run. Theorems over all application maps, per-fill miss sets and initial "
+             "core states: every flood fill is well formed (start, strictly increasing core selects selecting exactly the requested "
+             "cores, blocks numbered 0..n-1 within the buffer at consecutive addresses reassembling to the binary, announced count = "
+             "blocks sent, end packet) and loads exactly the selected cores on the listening chips; normal return implies every "
+             "requested core holds its binary under the app id (waiting or started) and unrequested cores are untouched; otherwise "
+             "the loading error names exactly the unloaded cores after at most n_tries+1 attempts, each retry addressed only to "
+             "the cores still missing -- under the guards no_requested_waiting (+ no_other_waiting in count mode); both guards are "
+             "proved necessary by refutation theorems whose witnesses are replayed on the real code on every run (the two known "
+             "findings). Real controller datagram by datagram against an independent simulator; trace validator; ground-truth oracle.",
+        ref="4 C09", technique="Coq proof (machine/controller refinement, invariant over attempts) + py2v/ast translation + vm_compute correspondence + trace validator",
+        note=TB + " SC&MP flood-fill semantics as written in Model/Load.v; guards on binary size (multiple of 4, <= 255 blocks) are stated in the theorems."),
 }
 NOT_YET = {}
 def main():
